@@ -302,10 +302,18 @@ def parse_email(data: bytes | str) -> tuple[RawMetadata, dict[str, list[str]]]:
     raw: dict[str, str | list[str] | dict[str, str]] = {}
     unparsed: dict[str, list[str]] = {}
 
+    # Core metadata is a list of headers plus a plain-text body, not a MIME
+    # document: ``headersonly`` keeps the body a single string whatever a
+    # ``Content-Type`` header says (a multipart or message/* type would otherwise
+    # make the payload a list of sub-messages).
     if isinstance(data, str):
-        parsed = email.parser.Parser(policy=email.policy.compat32).parsestr(data)
+        parsed = email.parser.Parser(policy=email.policy.compat32).parsestr(
+            data, headersonly=True
+        )
     else:
-        parsed = email.parser.BytesParser(policy=email.policy.compat32).parsebytes(data)
+        parsed = email.parser.BytesParser(policy=email.policy.compat32).parsebytes(
+            data, headersonly=True
+        )
 
     # We have to wrap parsed.keys() in a set, because in the case of multiple
     # values for a key (a list), the key will appear multiple times in the
